@@ -130,9 +130,15 @@ def clsOf (g : Graph) (i : Id) : Option Str := g.objs.lookup i
 
 def getScal (g : Graph) (i : Id) (k : Str) : Option RVal := g.scal.lookup (i, k)
 
+/-- replace the value at `key`, or append a new entry (the position of an existing entry is kept, so
+that assigning the value an attribute already has leaves the graph literally unchanged) -/
+def upd (key : Id × Str) (v : RVal) : List ((Id × Str) × RVal) → List ((Id × Str) × RVal)
+  | [] => [(key, v)]
+  | e :: t => if e.1 == key then (key, v) :: t else e :: upd key v t
+
 /-- `setattr(obj, k, v)` -/
 def setScal (g : Graph) (i : Id) (k : Str) (v : RVal) : Graph :=
-  { g with scal := g.scal.filter (fun e => e.1 != (i, k)) ++ [((i, k), v)] }
+  { g with scal := upd (i, k) v g.scal }
 
 def setScals (g : Graph) (i : Id) : List (Str × RVal) → Graph
   | [] => g
